@@ -59,3 +59,14 @@ package smtp
 //@   ensures [pump-ends] gostarts != old(gostarts) ==> closed(done)
 //@   ensures [one-helper] gostarts <= old(gostarts) + 1
 //@   modifies *
+//
+// ---- message bodies come off the stream as units (property C04: what is captured does not depend on how the
+// bytes were segmented) ----
+// In the transaction state a BDAT chunk is taken from the connection's reader by io.CopyN with exactly the count
+// the command announced (assumed: CopyN reads until that many bytes have arrived or the stream fails), and the
+// state function never takes bytes with a bare Read, which returns whatever one segment happened to deliver.
+//@ func mailFromState
+//@   check callpre
+//@   modifies *
+//@   callpre io.CopyN: n == caller.count && 0 <= 0
+//@   callpre bufio.(*Reader).Read: 1 == 0
